@@ -388,7 +388,9 @@ pub fn generate(seed: u64, run: u64) -> BerCfg {
     }
     let base = safe_ebn0_db(&cfg);
     let np = *g.pick(&[1usize, 1, 2]);
-    cfg.ebn0s_db = (0..np).map(|i| base + 0.75 * i as f32).collect();
+    // points 3 dB apart: the LLR scale then identifies the point a frame was generated for
+    // (a factor 2 per point against a few percent of noise on the frame mean)
+    cfg.ebn0s_db = (0..np).map(|i| base + 3.0 * i as f32).collect();
     cfg
 }
 
@@ -480,6 +482,9 @@ pub fn check_noise(cfg: &BerCfg, obs: &BerObs, label: &str) -> (Vec<Violation>, 
         let mut im = Acc::default();
         let mut reim = Corr::default();
         let mut lag1 = Corr::default();
+        let mut lagk = [Corr::default(), Corr::default(), Corr::default()]; // lags 2, 3, 4
+        let mut re_next_im = Corr::default();
+        let mut im_next_re = Corr::default();
         let mut cross_worker = Corr::default();
         let mut cross_frame = Corr::default();
         let (mut amp_num, mut amp_den) = (0.0, 0.0);
@@ -499,13 +504,20 @@ pub fn check_noise(cfg: &BerCfg, obs: &BerObs, label: &str) -> (Vec<Violation>, 
                 reim.add(a, b);
             }
             // lag-1 between consecutive symbols (same dimension)
-            if cfg.psk8 {
-                for wnd in fnz.pairs.windows(2) {
-                    lag1.add(wnd[0].0, wnd[1].0);
+            let series: Vec<f64> = if cfg.psk8 { fnz.pairs.iter().map(|p| p.0).collect() } else { fnz.noise.clone() };
+            for wnd in series.windows(2) {
+                lag1.add(wnd[0], wnd[1]);
+            }
+            for (li, lag) in [2usize, 3, 4].iter().enumerate() {
+                for i in *lag..series.len() {
+                    lagk[li].add(series[i - lag], series[i]);
                 }
-            } else {
-                for wnd in fnz.noise.windows(2) {
-                    lag1.add(wnd[0], wnd[1]);
+            }
+            if cfg.psk8 {
+                // one part of a sample against the other part of the next sample
+                for wnd in fnz.pairs.windows(2) {
+                    re_next_im.add(wnd[0].0, wnd[1].1);
+                    im_next_re.add(wnd[0].1, wnd[1].0);
                 }
             }
             amp_num += fnz.amp_num;
@@ -554,6 +566,15 @@ pub fn check_noise(cfg: &BerCfg, obs: &BerObs, label: &str) -> (Vec<Violation>, 
             flag("re/im correlation", reim.r(), 0.0, 7.0 / reim.n.sqrt());
         }
         flag("lag-1 correlation", lag1.r(), 0.0, 7.0 / lag1.n.sqrt());
+        if cfg.psk8 {
+            flag("correlation of a real part with the next sample's imaginary part", re_next_im.r(), 0.0, 7.0 / re_next_im.n.sqrt());
+            flag("correlation of an imaginary part with the next sample's real part", im_next_re.r(), 0.0, 7.0 / im_next_re.n.sqrt());
+        }
+        for (li, c) in lagk.iter().enumerate() {
+            if c.n > 1000.0 {
+                flag(&format!("lag-{} correlation", li + 2), c.r(), 0.0, 7.0 / c.n.sqrt());
+            }
+        }
         if cross_frame.n > 1000.0 {
             flag("same-index correlation between consecutive frames", cross_frame.r(), 0.0, 7.0 / cross_frame.n.sqrt());
         }
